@@ -177,9 +177,9 @@ def run(ctx):
             ctx.violation("%s:%s@%s:%s" % (o.get("stage"), o["exc"], o["site"], cls),
                           "fast-%s fails with %s: %s (%s)" % (o.get("stage"), o["exc"], o.get("emsg"), where), rep)
         elif {"count", "shape", "left"} & set(failed):
-            ctx.violation("graph:%s:%s" % ("+".join(x for x in ("count", "shape", "left") if x in failed), cls),
-                          "imported revision graph is %s (%d revisions in the repository), source graph is %s (%s)" % (
-                              o["P"], o["nrevs"], h["P"], where), rep)
+            ctx.violation("graph:%s" % cls,
+                          "imported revision graph is %s (%d revisions in the repository), source graph is %s; failing "
+                          "clauses %s (%s)" % (o["P"], o["nrevs"], h["P"], sorted(failed), where), rep)
         elif "trees" in failed:
             _, desc = cc.tree_signature(h, o)
             ctx.violation("trees:%s" % cls, "imported tree differs: %s (%s)" % (desc, where), rep)
